@@ -5,6 +5,9 @@ mod l1;
 mod pt;
 mod refmodel;
 mod c01;
+mod c06;
+mod grammar;
+mod pipeline;
 
 use common::*;
 
@@ -34,11 +37,13 @@ fn main() {
     let seed: u64 = std::env::var("VERIF_SEED").ok().and_then(|s| s.trim().parse::<i128>().ok()).map(|v| v as u64).unwrap_or(0);
     let prop: &'static str = match args[1].as_str() {
         "C01" => "C01",
+        "C06" => "C06",
         _ => usage(),
     };
     let ctx = Ctx::new(prop, tier, seed);
     match prop {
         "C01" => c01::run(&ctx),
+        "C06" => c06::run(&ctx),
         _ => unreachable!(),
     }
     std::process::exit(ctx.finish());
@@ -62,6 +67,7 @@ fn replay(path: &str) -> i32 {
     let kind = v.get("kind").and_then(|k| k.as_str()).unwrap_or("");
     let r = match kind {
         "l0" => l0::replay_point(&v),
+        "jcc" => c06::replay(&v),
         _ => Err(format!("unknown replay kind '{}'", kind)),
     };
     match r {
